@@ -117,7 +117,7 @@ type TypeInv struct {
 
 var clauseKeywords = map[string]bool{"stable": true, "reads-model": true, "names": true, "iteration": true, "variant": true, "dead-return": true, "requires": true, "ensures": true, "invariant": true, "decreases": true, "property": true,
 	"pure": true, "assigns": true, "trusted": true, "noinline": true, "inline": true, "func": true, "sweep": true, "immutable": true, "spec": true,
-	"axiom": true, "flagset": true, "safeonly": true, "immutable-family": true, "method-pre": true, "funcvalue-pre": true, "entry": true, "type-invariant": true, "child-invariant": true, "elems-nonnil": true, "callback-parametric": true, "json-hidden": true, "json-visible": true, "pass-order": true, "observe-args": true, "map-order": true, "json-numbers": true}
+	"axiom": true, "flagset": true, "safeonly": true, "immutable-family": true, "method-pre": true, "funcvalue-pre": true, "entry": true, "type-invariant": true, "child-invariant": true, "elems-nonnil": true, "callback-parametric": true, "json-hidden": true, "json-visible": true, "pass-order": true, "observe-args": true, "map-order": true, "json-numbers": true, "json-marshaler": true}
 
 var contractRoot = "" // directory that contract file paths are relative to (repo or mirror)
 
@@ -512,6 +512,15 @@ func (w *World) parseContractFile(cs *ContractSet, file string) error {
 			if len(fs) >= 3 && fs[2] == "package" {
 				cs.StructFacts = append(cs.StructFacts, StructFact{Kind: kw, Prop: fs[1], Spec: pkgShort, File: file, Line: rl.line})
 			}
+		case "json-marshaler":
+			// json-marshaler Cxx pkg.Struct.Field=pkg.Type : the field is declared with that named type, so that
+			// encoding/json writes it through the MarshalJSON method of that type (decided by go/types)
+			if len(fs) < 3 {
+				return fmt.Errorf("%s:%d: json-marshaler wants a property and Struct.Field=Type", file, rl.line)
+			}
+			for _, f := range fs[2:] {
+				cs.StructFacts = append(cs.StructFacts, StructFact{Kind: kw, Prop: fs[1], Spec: f, File: file, Line: rl.line})
+			}
 		case "json-numbers":
 			// json-numbers Cxx package : no struct type of this package (function-local view types included) marshals
 			// a number through `omitempty` - the zero value would be written like an absent one (decided by go/types)
@@ -717,7 +726,7 @@ func closureEmitting(w *World, parentKey, lit string) *ssa.Function {
 					continue
 				}
 				for _, a := range ci.Common().Args {
-					if c, ok := a.(*ssa.Const); ok && c.Value != nil && c.Value.Kind() == constant.String && constant.StringVal(c.Value) == lit {
+					if c, ok := a.(*ssa.Const); ok && c.Value != nil && c.Value.Kind() == constant.String && (constant.StringVal(c.Value) == lit || (constant.StringVal(c.Value)+"\n" == lit && ci.Common().StaticCallee() != nil && ci.Common().StaticCallee().Name() == "WriteStringln")) {
 						has = true
 					}
 				}
